@@ -708,6 +708,8 @@ TOUCH = {"sigkey_first_use_sign": {"ec_sig"}, "sigkey_encrypt_refused": {"ec_sig
          "decrypt_c20p_list_and_registry": {"reg_jwe", "C20P"}, "decrypt_c20p_registry_only": {"reg_jwe", "C20P"},
          "pp_kid_a": {"pp"}, "pp_kid_b": {"pp"}, "pp_sign_b": {"pp"},
          "encrypt_kw_zip": {"DEF"}, "encrypt_kw_zip_b": {"DEF"}, "decrypt_kw_zip": {"DEF"}, "decrypt_kw_zip_b": {"DEF"}}
+SIBLING = {"decrypt_kw_b": "decrypt_kw", "decrypt_kw_cbc_b": "decrypt_kw_cbc", "decrypt_kw_c20p_b": "decrypt_kw_c20p", "decrypt_1pu_kw_b": "decrypt_1pu_kw",
+           "encrypt_kw_zip_b": "encrypt_kw_zip", "decrypt_kw_zip_b": "decrypt_kw_zip", "encrypt_json_kw_b": "encrypt_json_kw"}
 CORE = ["sign_hs_k1", "sign_hs_k2", "verify_hs_k1", "verify_hs_wrongkey", "sign_es", "verify_es_private_obj", "keyset_new", "keyset_sign_pick",
         "keyset_verify_kid", "thumbprint", "ensure_kid", "export_public", "encrypt_kw", "decrypt_kw", "encrypt_ecdh", "jwt_roundtrip", "shared_keyset_sign",
         "verify_disallowed", "verify_ed_allowed", "read_kid", "custom_registry_sign", "sign_unregistered_header",
@@ -979,7 +981,7 @@ def solo_steps(name):
 def shards(tier):
     n = len(CORE)
     pairs = [(a, b) for a in CORE for b in CORE]
-    k = 10
+    k = 13
     return [(f"s{i:02d}", {"part": "sched", "i": i, "n": k}) for i in range(k)] + [(f"m{i}", {"part": "multi"}) for i in range(2)] + \
            [(f"h{i}", {"part": "history"}) for i in range(3)] + [("stress", {"part": "stress"})]
 
@@ -998,8 +1000,18 @@ def run_shard(ctx, spec):
         pairs = [(a, b) for a in names for b in names]
         # pairs that share a lazily initialised or long-lived object first (dealt out evenly over the shards: they get every line):
         # should the time budget run out, it is the sparse schedules of unrelated pairs that are left over
-        hot_pairs = [p for p in pairs if TOUCH.get(p[0], set()) & TOUCH.get(p[1], set())]
-        cold_pairs = [p for p in pairs if not (TOUCH.get(p[0], set()) & TOUCH.get(p[1], set()))]
+        def is_hot(a, b):
+            if not (TOUCH.get(a, set()) & TOUCH.get(b, set())):
+                return False
+            # the second-message variants exist to show cross-talk with their sibling (a call returning the other call's data):
+            # with every other operation they would only repeat what the sibling's pairs explore
+            for x, y in ((a, b), (b, a)):
+                if x in SIBLING and y not in (x, SIBLING[x]) and not quick_all[0]:
+                    return False
+            return True
+        quick_all = [not quick]
+        hot_pairs = [p for p in pairs if is_hot(*p)]
+        cold_pairs = [p for p in pairs if not is_hot(*p)]
         mine = [p for j, p in enumerate(hot_pairs) if j % spec["n"] == spec["i"]] + [p for j, p in enumerate(cold_pairs) if j % spec["n"] == spec["i"]]
         lens = {}
 
@@ -1010,7 +1022,7 @@ def run_shard(ctx, spec):
                 if a not in lens:
                     lens[a] = solo_steps(a)
                 la = lens[a]
-                hot = bool(TOUCH.get(a, set()) & TOUCH.get(b, set()))
+                hot = is_hot(a, b)
                 stride = 1 if (hot or not quick) else max(1, la // 2)   # every line for pairs sharing an object (and in thorough); 2-3 preemption points otherwise
                 for i in range(offset % stride, la + 1, stride):
                     sched = [(0, i), (1, None)]
@@ -1026,7 +1038,7 @@ def run_shard(ctx, spec):
                     # many preemptions: the two calls alternate every r lines (after a head start), which reaches states that need
                     # two or three switches at particular places (one call invalidating what the other has just built)
                     for r in (1, 3):
-                        for start in range(offset % 3, 31, 3):
+                        for start in range(offset % 3, 31, 3 if r == 1 else 6):
                             sched = [(0, start)] + [(1, r), (0, r)] * 600
                             f, switched, steps = run_schedule(a, b, sched)
                             ctx.count("schedules")
